@@ -262,7 +262,7 @@ impl Prop for C06 {
                 Some(b) => b,
                 None => fail!("aux_counted", "the building declares auxiliary electricity but has no electricity balance"),
             };
-            let t_ = tol(s_abs, n);
+            let t_ = tol(s_abs, n + b.lines.len().saturating_sub(64));
             for t in 0..n {
                 ensure!((bc.used.epus_t[t] as f64 - el_tot[t]).abs() <= t_, "aux_counted", "step {}: EPB electricity use {} but declared CONSUMO + AUX = {}", t, bc.used.epus_t[t], el_tot[t]);
             }
